@@ -12,6 +12,10 @@ impl HasKey<Public> for V3 {
     type Key = PublicKey;
 
     fn decode(bytes: &[u8]) -> Result<PublicKey, PasetoError> {
+        // k3.public is the 49-byte compressed SEC1 encoding: no identity (1 byte) and no uncompressed (97 bytes) forms.
+        if bytes.len() != 49 || !matches!(bytes[0], 2 | 3) {
+            return Err(PasetoError::InvalidKey);
+        }
         let pk = VerifyingKey::from_sec1_bytes(bytes)?;
         Ok(PublicKey(pk))
     }
